@@ -174,8 +174,10 @@ def oracle(defn, vals, x, e):
     V = np.zeros((nS, nE))
     for j, (_, trs) in enumerate(defn["events"]):
         for t in trs:
-            if t["tt"] in ("T", "D"): V[idx[t["o"]], j] -= t.get("mag", 1)
-            if t["tt"] in ("T", "B"): V[idx[t["d"]], j] += t.get("mag", 1)
+            mg = t.get("mag", 1)
+            mg = env[mg] if isinstance(mg, str) else mg       # a magnitude may be a parameter (burst size)
+            if t["tt"] in ("T", "D"): V[idx[t["o"]], j] -= mg
+            if t["tt"] in ("T", "B"): V[idx[t["d"]], j] += mg
     pure = np.zeros(nS)
     for s, r in defn["odes"]:
         pure[idx[s]] += rate_val(r, env)
@@ -310,7 +312,8 @@ def gen_rate(rng, names, kinds=("lin", "mass", "sat", "const")):
 def gen_tr(rng, tt=None, mags=(1, 2, 3)):
     tt = tt or ["T", "T", "B", "D"][int(rng.integers(0, 4))]
     o, d = [STATES[int(j)] for j in rng.permutation(3)[:2]]
-    return dict(tt=tt, o=o if tt != "B" else None, d=d if tt != "D" else None, mag=int(mags[int(rng.integers(0, len(mags)))]))
+    mag = mags[int(rng.integers(0, len(mags)))]
+    return dict(tt=tt, o=o if tt != "B" else None, d=d if tt != "D" else None, mag=(mag if isinstance(mag, str) else int(mag)))
 
 
 def gen_val(rng):
@@ -345,7 +348,10 @@ def gen_mut(rng, how, usable, nparam, nder):
 def gen_history(rng, maxlen):
     params = ["p0", "p1"]
     h = dict(states=list(STATES), params=list(params), x=[float(int(rng.integers(4, 33))) / 8.0 for _ in STATES], base=[], ops=[])
-    h["base"].append(dict(op="mut", how="add_event_E", rate=gen_rate(rng, params), tr=[gen_tr(rng, "T")]))
+    # in a third of the histories the base event's magnitude is a parameter: the state-change matrix then depends on the
+    # parameter VALUES (and on nothing else), so a stale vMat shows after a plain parameters assignment
+    h["base"].append(dict(op="mut", how="add_event_E", rate=gen_rate(rng, params),
+                          tr=[gen_tr(rng, "T", (1, 2, 3) if rng.random() < 0.67 else ("p0", "p1"))]))
     if rng.random() < 0.5:
         h["base"].append(dict(op="mut", how="add_ode", o="R", rate=gen_rate(rng, params, ("lin", "lin2"))))
     vals = [gen_val(rng) for _ in params]
@@ -424,6 +430,15 @@ def targeted():
                     tr=[dict(tt="T", o="I", d="R", mag=1)]), dict(op="eval", e=e), dict(op="eval", e="ode"), dict(op="eval", e=e),
                     dict(op="set", form="dict", items=[[0, 1.0]]), dict(op="eval", e=e), dict(op="eval", e="ode")]
         out.append(h)
+    # a magnitude that is a parameter: each evaluator alone, evaluated, parameter VALUES changed, evaluated again
+    for e in ("vMat", "ode", "transitionMean", "transitionVar", "jacobian"):
+        for form in ("list", "dict"):
+            setop = dict(op="set", form="list", vals=[1.5, 0.75]) if form == "list" else dict(op="set", form="dict", items=[[0, 1.5]])
+            out.append(dict(states=list(STATES), params=["p0", "p1"], x=[2.0, 1.5, 0.75],
+                            base=[dict(op="mut", how="add_event_E", rate=dict(k="mass", p="p1", X="S", Y="I"),
+                                       tr=[dict(tt="T", o="S", d="I", mag="p0"), dict(tt="B", o=None, d="R", mag=2)])],
+                            ops=[dict(op="set", form="list", vals=[0.5, 0.25]), dict(op="eval", e=e), setop, dict(op="eval", e=e),
+                                 dict(op="eval", e=e)]))
     return out
 
 
